@@ -189,3 +189,70 @@ func streamPairs(seed uint64, idx int) caseT {
 }
 
 func init() { streamTable["pairs"] = streamPairs }
+
+// size: the same small set of operations on inputs that are LARGE in one dimension — identifiers and strings of 63…65 536
+// bytes (ASCII and multi-byte), arrays and objects of the sizes in sizeLadder, numbers with hundreds of digits, expressions
+// with hundreds of members — where a fixed buffer, a threshold between two algorithms, a length stored in a narrow type or a
+// quadratic loop would show.
+var sizeLens = []int{63, 64, 65, 127, 128, 129, 255, 256, 257, 511, 512, 513, 1000, 1023, 1024, 1025, 4095, 4096, 4097, 65535, 65536, 65537}
+
+func sizeCount() int { return (len(sizeLens)*6 + len(sizeLadder)*10 + 24) }
+
+func streamSize(seed uint64, idx int) caseT {
+	g := genFor(seed, "size", idx)
+	nl, na := len(sizeLens)*6, len(sizeLadder)*10
+	switch {
+	case idx < nl:
+		n := sizeLens[idx%len(sizeLens)]
+		unit := []string{"a", "k9_", "é", "世", "😀", "x y"}[idx/len(sizeLens)]
+		s := strings.Repeat(unit, n/len(unit)+1)[:n/len(unit)*len(unit)]
+		doc := map[string]interface{}{s: 1.0, "s": s, "arr": []interface{}{s, s + "b", "a" + s}}
+		q := jsonText(s)
+		lines := []string{"S " + hexField(q) + " " + canonOf(doc), "S " + hexField("[length(s), reverse(s) == s, contains(s, 'b'), starts_with(s, 'a'), ends_with(s, 'a'), s == "+rawTok(s)+", sort(arr)[0] == s, max(arr) == s, join('', arr) == s, to_string(s) == s]") + " " + canonOf(doc),
+			"S " + hexField("["+rawTok(s)+", "+literalTok(s)+", "+q+"] | [length(@[0]), @[0] == @[1], @[2]]") + " " + canonOf(doc)}
+		if unquotedRe.MatchString(s) {
+			lines = append(lines, "S "+hexField(s+" | [@, "+s+"]")+" "+canonOf(doc), "C "+hexField(s+"."+s+"["+strconv.Itoa(n)+"]"))
+		}
+		return caseT{lines: lines}
+	case idx < nl+na:
+		k := idx - nl
+		n := sizeLadder[k%len(sizeLadder)]
+		form := k / len(sizeLadder)
+		arr := make([]interface{}, n)
+		obj := map[string]interface{}{}
+		for i := range arr {
+			arr[i] = map[string]interface{}{"a": float64((i * 7919) % 101), "s": strconv.Itoa((i * 31) % 17), "n": float64(i), "l": []interface{}{float64(i), nil}}
+			obj["k"+strconv.Itoa(i)] = float64(i)
+		}
+		doc := map[string]interface{}{"arr": arr, "obj": obj}
+		e := []string{
+			"[length(arr), arr[-1].n, arr[" + strconv.Itoa(n-1) + "].n, arr[" + strconv.Itoa(n) + "], arr[::-1][0].n, arr[" + strconv.Itoa(n/2) + ":][0].n]",
+			"[sort_by(arr, &a)[*].n, sort_by(arr, &s)[-1].n, max_by(arr, &a).n, min_by(arr, &s).n]",
+			"[sum(arr[*].a), avg(arr[*].n), max(arr[*].a), min(arr[*].s), length(arr[?a > `50`]), arr[?n == `" + strconv.Itoa(n-1) + "`].n]",
+			"[length(arr[].l[]), arr[*].l[0] | length(@), map(&n, arr)[-1], reverse(arr)[0].n, length(to_string(arr)) > `10`]",
+			"[join(',', arr[*].s) | length(@), sort(arr[*].s)[0], sort(arr[*].n)[-1], contains(arr[*].n, `" + strconv.Itoa(n-1) + "`), contains(arr[*].n, `" + strconv.Itoa(n) + "`)]",
+			"[length(obj), obj.k0, obj.k" + strconv.Itoa(n-1) + ", obj.k" + strconv.Itoa(n) + ", length(keys(obj)), sum(values(obj)), sort(keys(obj))[0], length(obj.*)]",
+			"[length(merge(obj, `{\"z\":1}`)), merge(obj, obj) == obj, length(to_string(obj)) > `10`, type(obj), obj == obj]",
+			"arr[*].{n: n, a: a} | [length(@), @[-1], @[0]]",
+			"arr[?n >= `" + strconv.Itoa(n-2) + "`].[n, s, l[0]]",
+			"[arr[1:" + strconv.Itoa(n) + ":" + strconv.Itoa(n/3+1) + "][*].n, arr[::" + strconv.Itoa(-(n/2 + 1)) + "][*].n, not_null(arr[" + strconv.Itoa(n+5) + "], arr[0].n)]",
+		}[form]
+		return caseT{lines: []string{"S " + hexField(e) + " " + canonOf(doc)}}
+	default:
+		k := idx - nl - na
+		big := []string{"123456789012345678901234567890", "-" + strings.Repeat("9", 309), "0." + strings.Repeat("0", 400) + "1", strings.Repeat("1", 400) + "e-399", "1" + strings.Repeat("0", 308), "1e308", "1.0000000000000000000000000000000001",
+			"4.9406564584124654e-324", "2.4703282292062327e-324", "179769313486231570000000000000000000000000000000000000000000000000000000000000000000000000000000000000000000000000000000000000000000000000000000000000000000000000000000000000000000000000000000000000000000000000000000000000000000000000000000000000000000000000000000000000000000000000000000000000"}
+		spell := []string{"`1e2`", "`1E+2`", "`-0.5e-1`", "`[1.0, 1.50, -0e0]`", "`\"a\\\"b\\\\c\"`", "`\"\\u00e9\\ud83d\\ude00\"`", "\"\\u0061\"", "\"caf\\u00e9\"", "'/* x */'", "`\"// a\"`", "'# not a comment'", "` \\n\\t{ \"a\" : [ 1 , 2 ] } `",
+			"\"a b\".\"c\\td\"", "`\"\\/\"`"}
+		if k < len(big) {
+			n := big[k]
+			return caseT{lines: []string{"C " + hexField("`"+n+"`"), "S " + hexField("[`"+n+"`, to_number('"+n+"'), to_string(`"+n+"`), `"+n+"` == to_number('"+n+"')]") + " null"}}
+		}
+		e := spell[(k-len(big))%len(spell)]
+		doc := map[string]interface{}{"a": 1.0, "café": 2.0, "a b": map[string]interface{}{"c\td": 3.0}}
+		_ = g
+		return caseT{lines: []string{"C " + hexField(e), "S " + hexField("["+e+", "+e+"]") + " " + canonOf(doc)}}
+	}
+}
+
+func init() { streamTable["size"] = streamSize }
